@@ -1,8 +1,9 @@
 CONSTANTS
-  MaxBlocks = 0
-  Hs = {}
-  Rich = FALSE
-  NthAll = FALSE
+  MaxItems = 0
+  MaxN = 0
+  Kinds = {}
+  OneCfg = TRUE
+  MaxOpt = 0
 INIT TInit
 NEXT TNext
 INVARIANT Report
